@@ -91,3 +91,7 @@ pub use ractor::serialization::*;
 // Re-export the procedural macros so people don't need to reference them directly
 pub use ractor_cluster_derive::RactorClusterMessage;
 pub use ractor_cluster_derive::RactorMessage;
+
+/// Verification hooks for the remote-actor proxy state (feature `verif`, add-only)
+#[cfg(feature = "verif")]
+pub use remote_actor::verif_hooks as remote_actor_verif_hooks;
